@@ -395,6 +395,36 @@ pub fn cmd_text_fields(a: &HashMap<String, String>) -> i32 {
             }
         }
     }
+    // IS_VER's version is not a string but a parsed game version that is printed into 8 bytes: versions whose printed form
+    // has 8 characters and more (long revisions, numbers with many digits)
+    for text in ["0.7E", "0.7E123", "0.7E1234", "0.7E12345", "0.7F123456789", "0.70000005A", "12345678", "1234567.5Z9"] {
+        let base = crate::abs::default_packets().into_iter().find(|p| crate::abs::kind_of(p) == "Ver");
+        let p = base.and_then(|b| {
+            let mut a = b.to_abs();
+            a["rec"]["version"] = cps(text);
+            insim::Packet::from_abs(&a).ok()
+        });
+        if let Some(p) = p {
+            for mode in ["U", "C"] {
+                let ev = match try_encode(mode, &p) {
+                    Ok(frame) => {
+                        let (consumed, back) = match standalone(mode, &frame) {
+                            (crate::frames::Verdict::Pkt { consumed, .. }, Some(q)) => (consumed as i64, crate::abs::kind_of(&q).to_string()),
+                            (crate::frames::Verdict::DecodeErr { consumed }, _) => (consumed as i64, "decode-error".to_string()),
+                            _ => (-1, "none".to_string()),
+                        };
+                        json!({"ev": "Frame", "kind": "Ver", "name": "version", "mode": mode, "flavour": "version", "enclen": text.len(), "res": "ok",
+                               "bytes": frame, "consumed": consumed, "back": back, "text": cps(text), "back_text": [], "fits": false, "reenc": false})
+                    },
+                    Err(e) => json!({"ev": "Frame", "kind": "Ver", "name": "version", "mode": mode, "flavour": "version", "enclen": text.len(),
+                                     "res": if e.starts_with("err") { "err" } else { "panic" }, "bytes": [], "consumed": 0, "back": "none",
+                                     "text": cps(text), "back_text": [], "fits": false, "reenc": false}),
+                };
+                let _ = writeln!(w, "{}", ev);
+                n += 1;
+            }
+        }
+    }
     n += mso_events(&mut w);
     println!("{}", json!({"events": n, "fields": FIELDS.len()}));
     0
